@@ -1,8 +1,8 @@
 import StraxModel.Driver.C07
 import StraxModel.Model.Storage
 import StraxModel.Generated.GetSplits
-namespace Strax.Driver
-open Strax Strax.Storage
+namespace Strax.Driver.C03
+open Strax Strax.Storage Strax.Driver
 
 /-! canonical text of metadata / files (same format as `checks/props/c03.py`) -/
 
@@ -61,6 +61,11 @@ def tamper (spec : String) (m : Meta) (fs : Files) : Option (Meta × Files) :=
     let k ← k.toNat?; let ds ← ds.toInt?; let de ← de.toInt?
     pure ({ m with chunks := modifyAt m.chunks (idx k) fun c => { c with start := c.start + ds, stop := c.stop + de } }, fs)
   | _ => none
+
+end Strax.Driver.C03
+
+namespace Strax.Driver
+open Strax Strax.Storage Strax.Driver.C03
 
 /-- ops of property C03.
 `c03.rt <rechunk> <tamper> <runId> <dataType> <kind> <target> <pfx> <rawchunk>*` :
